@@ -337,7 +337,7 @@ class InlineParameter(_Inliner):
         super().__init__(*args, **kwds)
         resource, offset = self._function_location()
         index = self.pyname.index
-        self.changers = [change_signature.ArgumentDefaultInliner(index)]
+        self.changers = [_ArgumentDefaultInliner(index)]
         self.signature = change_signature.ChangeSignature(
             self.project, resource, offset
         )
@@ -360,6 +360,22 @@ class InlineParameter(_Inliner):
 
     def get_kind(self):
         return "parameter"
+
+
+def _check_no_star_arguments(call_info):
+    # The values passed through ``*args`` or ``**kwargs`` are not known
+    # here, so the parameters they bind cannot be mapped.
+    if call_info.args_arg is not None or call_info.keywords_arg is not None:
+        raise exceptions.RefactoringError(
+            "Cannot inline calls that pass list or keyword arguments "
+            "(*args or **kwargs): <%s>" % call_info.to_string()
+        )
+
+
+class _ArgumentDefaultInliner(change_signature.ArgumentDefaultInliner):
+    def change_argument_mapping(self, definition_info, mapping):
+        _check_no_star_arguments(mapping.call_info)
+        super().change_argument_mapping(definition_info, mapping)
 
 
 def _join_lines(lines: List[str]) -> str:
@@ -433,6 +449,7 @@ class _DefinitionGenerator:
         call_info = functionutils.CallInfo.read(
             primary, pyname, self.definition_info, call
         )
+        _check_no_star_arguments(call_info)
         paramdict = dict(self.definition_params)
         mapping = functionutils.ArgumentMapping(self.definition_info, call_info)
         for param_name, value in mapping.param_dict.items():
